@@ -3,18 +3,24 @@ from containers import *
 from c11 import set_eq, normalize_obs
 
 TP_ALL = [t for t in TPLS if t.name in ("declare", "defframe", "defcal", "defcalmeasure", "pragma", "gate", "measure", "defgate")]
-TP = [t for t in TPLS if t.name in ("declare", "defcal", "defcalmeasure", "gate")]
-OPS = {"quick": ["add_instruction", "add_assign", "clone_without_body", "rebuild", "wrap_in_loop2"],
-       "thorough": ["add_instruction", "add_assign", "clone_without_body", "clone", "rebuild", "wrap_in_loop2", "wrap_in_loop0", "wrap_in_loop1"]}
+# a sequence gate that ignores its second qubit, and an invocation of it: expansion drops a qubit from the listing
+# (the body gate is a two-qubit gate named X or S; one template per Instruction variant)
+SEQ = [Tpl("defgate", "DEFGATE S a b AS SEQUENCE:\n\tX a"), Tpl("gate", "{g} {q} {r}", g=("str", ["X", "S"]), q=("int", [0, 1, 2]), r=("int", [0, 1, 2]))]
+TP = [t for t in TPLS if t.name in ("declare", "defcal", "defcalmeasure")] + SEQ
+OPS = {"quick": ["add_instruction", "add_assign", "clone_without_body", "rebuild", "wrap_in_loop2", "expand_defgate_sequences"],
+       "thorough": ["add_instruction", "add_assign", "clone_without_body", "clone", "rebuild", "wrap_in_loop2", "wrap_in_loop0", "wrap_in_loop1", "expand_defgate_sequences",
+                    "expand_calibrations"]}
+STATUS_OPS = ("expand_defgate_sequences", "expand_calibrations")          # these script steps also report Ok / Err
 
 
-RESET_OPS = ("clone_without_body", "wrap_in_loop0", "wrap_in_loop2")
+RESET_OPS = ("clone_without_body", "wrap_in_loop0", "wrap_in_loop2", "expand_defgate_sequences", "expand_calibrations")
 
 
 def oracle(req, steps, obs, m=None):
     """obs: per step [used_qubits, get_qubits-per-instruction]; then eq(p, rebuilt), listing(p), listing(rebuilt)"""
     k = 0
     for i, name in enumerate(steps):
+        if name in STATUS_OPS: k += 1
         used, per_ins = obs[k], obs[k + 1]
         k += 2
         mentioned = [q for qs in per_ins for q in qs]
@@ -31,9 +37,8 @@ class C10(Check):
     functions = ["Program::{from_instructions,add_instruction,clone_without_body_instructions,wrap_in_loop,get_used_qubits,to_instructions}", "<Program as AddAssign>::add_assign",
                  "<Program as PartialEq>::eq", "Instruction::get_qubits", "Calibrations::*", "CalibrationSet::*"]
     assumptions = ["HashSet<Qubit> modelled as a set with structural Eq of Qubit (interpreted PartialEq for placeholders is not exercised: fixed qubits only)",
-                   "histories: a start sequence followed by operations from the listed alphabet; calibration / gate-sequence expansion, simplify and placeholder "
-                   "resolution are covered by their own properties' encodings and are not part of this history alphabet"]
-    outside = ["histories longer than the bound", "operations expand_calibrations, expand_defgate_sequences, simplify, resolve_placeholders inside histories"]
+                   "histories: a start sequence followed by operations from the listed alphabet (gate-sequence expansion with the filter `all`; calibration expansion in the thorough tier)"]
+    outside = ["histories longer than the bound", "operations simplify, resolve_placeholders inside histories (placeholder resolution rebuilds the cache: C34)"]
     N = {"quick": 1, "thorough": 2}
     H = {"quick": 2, "thorough": 3}
     sample_rate = 128
@@ -57,6 +62,7 @@ class C10(Check):
             elif op == "clone": s.append(["clone", "p", "p"])
             elif op == "rebuild": s.append(["rebuild", "p", "p"])
             elif op.startswith("wrap_in_loop"): s.append(["wrap_in_loop", "p", "p", int(op[-1])])
+            elif op in STATUS_OPS: s.append([op, "p", "p"])
             s += [["used_qubits", "p"], ["get_qubits", "p"]]
         s += [["rebuild", "r", "p"], ["eq", "p", "r"], ["to_instructions", "p"], ["to_instructions", "r"]]
         return s
@@ -105,7 +111,8 @@ class C10(Check):
         if first is not None:
             i = steps.index(first[1][6:]) if first[1][6:] in steps else 0
             i = next(j for j, nm in enumerate(steps) if ("used-qubits", f"after:{nm}") in col.failed)
-            used, per_ins = obs[2 * i], obs[2 * i + 1]
+            k = 2 * i + sum(1 for nm in steps[:i + 1] if nm in STATUS_OPS)
+            used, per_ins = obs[k], obs[k + 1]
             mentioned = [q for qs in per_ins for q in qs]
             missing = [q for q in mentioned if not any(tree_eq(q, u) is True for u in used)]
             role = f"used-qubits:after:{steps[i]}:" + ("missing" if missing else "extra")
@@ -123,7 +130,7 @@ class C10(Check):
         return None
 
     def canary(self, runner, tier):
-        case = {"n": 1, "ops": ["add_instruction"], "texts": ["X 0", "X 1"]}
+        case = {"n": 1, "ops": ["add_instruction"], "texts": ["X 0 0", "X 1 1"]}
         obs, raw = self.native(runner, case)
         col = Collect()
         obs[2] = obs[2][:1]          # pretend the cache missed qubit 1
